@@ -47,7 +47,7 @@ class SigmaRule(SigmaRuleBase, ProcessingItemTrackingMixin):
                     "Sigma rule must have a log source", source=source
                 )
             )
-        except AttributeError:
+        except (AttributeError, TypeError):
             logsource = EmptyLogSource()
             errors.append(
                 sigma_exceptions.SigmaLogsourceError(
